@@ -138,6 +138,10 @@ func (a *apiGen) inputs() string {
 		a.g.Stats["in-"+cls]++
 		items = append(items, t+"/"+a.vout(no))
 	}
+	if a.rn(10) == 0 { // the same output named twice
+		items = append(items, items[0])
+		a.g.Stats["in-duplicate"]++
+	}
 	return strings.Join(items, ",")
 }
 
@@ -737,7 +741,8 @@ func (a *apiGen) craftPending() {
 
 func genApi(g *Gen) {
 	nHist := g.Scale(60, 800)
-	for h := 0; h < nHist; h++ {
+	// keep generating (bounded) until every required class occurred: the coverage guard does not depend on the seed
+	for h := 0; h < nHist || (!g.Covered() && h < 6*nHist); h++ {
 		l := newLedGen(g, "api")
 		a := &apiGen{l: l, g: g, precise: true, exported: map[string]bool{}, removing: map[string]bool{}, removed: map[string]bool{}, import_: map[string]bool{}}
 		l.start(1 + g.Rng.Intn(2))
